@@ -53,7 +53,7 @@ def pGeoms : Nat → Tok → Option (List BGeom)
 def judgeKept (g : BGeom) (res : Tok) : Option String :=
   let inGuard := supported g && everyMemberNonEmpty g && allFinite Dec.isFiniteBits g
   match res with
-  | ["err"] => if supported g then some "encoder-rejected-supported-type" else none
+  | ["err"] => if supported g && inGuard then some "encoder-rejected-supported-type" else none
   | ["ok", c, k] =>
     match hexToChars ((c.drop 1).toString), hexToChars ((k.drop 1).toString) with
     | some ctxt, some ktxt =>
@@ -100,7 +100,8 @@ def judgeSeq (line : String) : String :=
       let m := encode fmt g
       match res with
       | "err" :: einfo =>
-        if supported g then s!"SPEC {cls} encoder-rejected-supported-type"
+        if supported g && guard && fin then s!"SPEC {cls} encoder-rejected-supported-type"
+        else if supported g then s!"DIFF {cls} model-encodes-impl-errs (outside the statement: empty member / non-finite)"
         else if m.isOk then s!"DIFF {cls} model-encodes-impl-errs"
         else match errInfoDiff (goTypeName g) einfo with
           | some why => s!"DIFF {cls} {why}"
